@@ -167,8 +167,9 @@ def oracle(seed, tier):
                         bad("random composition %d = %r outside its bounds [%r, %r]" % (c, v, cm["min value"][j], cm["max value"][j]), {"query": qs[i] % "a"})
         if hit:
             nontriv += len(qs)
-            # draws are visible in the answer only if something random reaches it (a deflection of 0 with fixed sizes returns the basis itself)
-            visible = (not gm["model"].endswith("deflected")) or any(x > 0 for x in gm["deflections"]) or any(x < 0 for x in gm["grain sizes"]) or bool(cfg["comp"] and any(a < b for a, b in zip(cfg["comp"]["min value"], cfg["comp"]["max value"])))
+            # draws are visible in the answer only if something random reaches it (a deflection of 0 with fixed sizes returns the basis itself; one grain with a
+            # normalised random size always has size 1)
+            visible = (not gm["model"].endswith("deflected")) or any(x > 0 for x in gm["deflections"]) or any(x < 0 and not (nm and ngr == 1) for x, nm in zip(gm["grain sizes"], gm["normalize grain sizes"])) or bool(cfg["comp"] and any(a < b for a, b in zip(cfg["comp"]["min value"], cfg["comp"]["max value"])))
             if not file_seed and visible and A == C:
                 bad("different seeds (%d, %d) give identical draws" % (sa, sb))
             if file_seed and A != C:
